@@ -119,6 +119,10 @@ def run(path, gen, rlimit=30, multiple_errors=30, extra=()):
             'message': msg, 'line': pline, 'label': label, 'block': block, 'serves': serves,
             'snippet': snippet, 'rendered': d.get('rendered', '')[:4000],
         })
+    if r.undecided and r.undecided.startswith('solver resource limit'):
+        # when the solver gives up, Verus may also print 'not satisfied' diagnostics for the
+        # same queries: none of them is a refutation. Undecided, never an alarm.
+        r.failures = []
     if hard_errors and not r.failures:
         msgs = '; '.join((d.get('message', '') + ' @' + str((d.get('spans') or [{}])[0].get('line_start'))) for d in hard_errors[:5])
         r.undecided = 'unit does not compile under Verus (unsupported construct / type error): ' + msgs
